@@ -605,6 +605,7 @@ def check(prop, tier, seed):
         cov["distribution"] = stats.get("distribution", {})
         cov["monitor"] = stats.get("monitor", {})
         cov["cross"] = stats.get("cross", {})
+        cov["stage"] = stats.get("stage", {})
         cov["exhaustive"] = False
     else:
         cov["evaluations"] = 0
